@@ -210,3 +210,89 @@ def check_amounts(ctx, rid, prop):
     r.stat('entries', len(tab))
     r.floor(found, max(1, int(len(tab) * 0.8)), 'reviewed amount sites found in the tree')
     return r
+
+
+# ------------------------------------------------------------------------------------------------ call census
+
+CALLS = os.path.join(HERE, 'rules', 'calls.json')
+
+
+def _matches(t, callee, ga):
+    if not (t['fn'] == callee or t['fn'].endswith('::' + callee) or t['fn'].endswith(callee)):
+        return False
+    if ga and not any(ga in g for g in t['ga']):
+        return False
+    return True
+
+
+def _family(F, caller):
+    return [f for n, f in F.fns.items() if n == caller or n.startswith(caller + '::{closure')]
+
+
+def reaches(F, t, callee, ga, cache, hops=3):
+    """the call `t` is a call of `callee`, or of a function (or closure argument) from which `callee` is reachable"""
+    if _matches(t, callee, ga):
+        return True
+    starts = [t['fn']] + list(t.get('cls') or [])
+    key = (tuple(starts), callee, ga)
+    if key in cache:
+        return cache[key]
+    seen = set(starts)
+    frontier = list(starts)
+    ok = False
+    for _ in range(hops):
+        nxt = []
+        for n in frontier:
+            f = F.fns.get(n)
+            if f is None:
+                continue
+            for bi, t2 in f.calls():
+                if _matches(t2, callee, ga):
+                    ok = True
+                for m in [t2['fn']] + list(t2.get('cls') or []):
+                    if m not in seen and m in F.fns:
+                        seen.add(m)
+                        nxt.append(m)
+        if ok:
+            break
+        frontier = nxt
+    cache[key] = ok
+    return ok
+
+
+def check_calls(ctx, rid, prop):
+    """reviewed must-call facts: `caller` reaches `callee` (mode some) or passes it on every non-error path (mode all)"""
+    r = ctx.rule(rid, 'PASS', 'call census: reviewed steps are still taken — on every non-error path (all) or at least somewhere (some) — directly or through helpers')
+    F = ctx.facts
+    with open(CALLS) as fh:
+        tab = [e for e in json.load(fh) if prop in e['props']]
+    cache = {}
+    found = 0
+    for e in tab:
+        fam = _family(F, e['caller'])
+        if not fam:
+            r.ok('absent|%s' % e['caller'], '', 'caller not present in this configuration (not a violation)')
+            continue
+        found += 1
+        key = 'call|%s|%s%s' % (e['caller'].replace('proto::streams::', ''), e['callee'], ('<' + e['ga'] + '>') if e.get('ga') else '')
+        root = F.fns[e['caller']] if e['caller'] in F.fns else fam[0]
+        if e['mode'] == 'some':
+            ok = any(reaches(F, t, e['callee'], e.get('ga'), cache) for f in fam for bi, t in f.calls())
+            r.check(ok, key, root.file, '%s %s %s. %s' % (e['caller'].split('::')[-1], 'reaches' if ok else 'NO LONGER reaches', e['callee'], e['why']))
+        else:
+            f = root
+            sites = set(bi for bi, t in f.calls() if reaches(F, t, e['callee'], e.get('ga'), cache))
+            try:
+                exits, ins, parent = core.scan(f, 0, None, lambda us, bi, t: 1 if bi in sites else us)
+            except core.Cap as ex:
+                r.bad(key + '|cap', f.file, str(ex))
+                continue
+            bad = [(bi, rc, st) for (bi, us, rc, st) in exits if us != 1 and not (rc == 'Err' or rc.startswith('Err') or rc.startswith('Ready:Err') or rc == 'Pending')]
+            wit = None
+            if bad:
+                wit = core.compress_path(f, [x['bb'] for x in core.witness_path(f, parent, bad[0][0], bad[0][2])])
+            r.check(bool(sites) and not bad, key, f.file,
+                    '%s %s %s. %s' % (e['caller'].split('::')[-1], 'passes' if sites and not bad else 'can return without passing', e['callee'], e['why']), witness=wit)
+    r.stat('entries', len(tab))
+    r.floor(found, max(1, int(len(tab) * 0.8)), 'reviewed callers found in the tree')
+    return r
